@@ -61,6 +61,7 @@ type e4Req struct {
 type e4Op struct {
 	Op    string `json:"op"` // buildlist | tidy | upgrade-all | get
 	Query string `json:"query,omitempty"`
+	Canon string `json:"canonical_spelling,omitempty"` // the same request in its canonical spelling
 }
 
 type e4Scenario struct {
@@ -1057,7 +1058,20 @@ func c11Gen(r *rand.Rand, tier string) any {
 			case 10:
 				q = pth + "@<=" + v
 			}
-			sc.Ops = append(sc.Ops, e4Op{Op: "get", Query: q})
+			op := e4Op{Op: "get", Query: q}
+			if !strings.Contains(pth, "@") && r.IntN(6) == 0 {
+				// another spelling of the same request: an explicit @v0 / @v1 on a path whose
+				// canonical form has none, or a path that cleaning changes
+				if qp, rest := project.SplitPathVersion(q); rest != "" && semver.Major(rest) != rest && qp == pth {
+					op.Canon = q
+					if r.IntN(3) == 0 {
+						op.Query = strings.Replace(pth, "/", "//", 1) + "@" + rest
+					} else {
+						op.Query = pth + "@" + []string{"v0", "v1"}[r.IntN(2)] + "@" + rest
+					}
+				}
+			}
+			sc.Ops = append(sc.Ops, op)
 		}
 	}
 	switch r.IntN(6) {
@@ -1250,6 +1264,17 @@ func c11Exec(scAny any, c *simcheck.Ctx) *simcheck.Violation {
 				}
 			}
 			return ""
+		}
+		if op.Op == "get" && op.Canon != "" {
+			// the same request in its canonical spelling gives the same requirements
+			twin, terr, v := apply(e4Op{Op: "get", Query: op.Canon}, root)
+			if v != nil {
+				return v
+			}
+			c.St.Count("gets_compared_with_their_canonical_spelling", 1)
+			if terr == nil && reqsString(twin) != reqsString(newReqs) {
+				return simcheck.V("spelling-changes-result", "%s gave {%s}; the same request spelled %s gives {%s}", what, reqsString(newReqs), op.Canon, reqsString(twin))
+			}
 		}
 		switch op.Op {
 		case "tidy":
